@@ -325,8 +325,13 @@ pub fn gen_cfg(rng: &mut Rng, o: &GenOpts) -> Cfg {
             l.formatted = false;
         }
     }
-    // device parameters
-    let max_bs_bits = if o.allow_big_bs { 12u32.min(cluster_bits) } else { 9 };
+    // device parameters (the same parameters are handed to every backing
+    // device, so slice and block sizes must be legal for every layer)
+    let cluster_bits = layers.iter().map(|l| l.cluster_bits).min().unwrap();
+    // the block size must divide every virtual size in the chain (a device
+    // whose size is not a multiple of its block size cannot address its tail)
+    let tz = layers.iter().map(|l| l.vsize.trailing_zeros()).min().unwrap();
+    let max_bs_bits = if o.allow_big_bs { 12u32.min(cluster_bits).min(tz) } else { 9 };
     let bs_bits = *rng.pick(&[9u32, 9, 9, 10, 12]);
     let bs_bits = bs_bits.min(max_bs_bits) as u8;
     // the library formats the L1 area in block units; keep the virtual size
@@ -471,6 +476,10 @@ impl OpGen {
         if len == 0 {
             len = bs.min(vend);
             off = 0;
+        }
+        // bounded request size (ids are handed out in 16 MiB strides)
+        if len > (8 << 20) {
+            len = 8 << 20;
         }
         (off, len)
     }
